@@ -40,8 +40,25 @@ JudgeA(r) ==
   IN /\ (fails = {} \/ PrintT(<<"FAIL", r.id, fails>>))
      /\ ((m.tree = r.res.tree /\ Len(m.errs) = r.res.nerr) \/ PrintT(<<"DRIFT", r.id>>))
 
+\* an accepted registration takes effect in the parsers built afterwards: the probe `T a` / `a T` /
+\* `a T b` of the parser built right after the call shows the registered operator (judged when the
+\* token has no other accepted infix/postfix role, which would share its table entry)
+ExpectedProbe(op, a) ==
+  CASE op = "prefix" -> "(prog (expr (cun:" \o a \o " (id:a)))) errs="
+    [] op = "postfix" -> "(prog (expr (cpost:" \o a \o " (id:a)))) errs="
+    [] op = "infix" -> "(prog (expr (cbin:" \o a \o " (id:a) (id:b)))) errs="
+TakesEffect(r) ==
+  \A k \in 1..Len(r.h) :
+    LET e == r.h[k]
+        key == e.op \o ":" \o e.a
+        rival == \E j \in 1..(k - 1) : r.h[j].a = e.a /\ r.h[j].res = 0 /\ r.h[j].op \in {"infix", "postfix"} /\ r.h[j].op # e.op
+    IN (e.op \in {"prefix", "infix", "postfix"} /\ e.res = 0 /\ key \in DOMAIN r.pidx /\ (e.op = "prefix" \/ ~rival)
+        /\ ~(e.op = "infix" /\ e.l < 2))
+       => r.probes[k + 1][r.pidx[key]] = ExpectedProbe(e.op, e.a)
+
 JudgeB(r) ==
   LET f1 == C05B_Failures(r.h, {r.builtinIds[j] : j \in 1..Len(r.builtinIds)})
+      f3 == IF TakesEffect(r) THEN {} ELSE {"accepted_registration_has_no_effect_in_the_next_parser"}
       f2 == IF \A k \in 1..Len(r.h) : (r.h[k].op # "tok" /\ r.h[k].res = -1) => r.probes[k + 1] = r.probes[k]
             THEN {} ELSE {"refused_registration_changed_the_parser"}
       \* registering a token type never changes what a parser does with the probes that do not use it
@@ -49,7 +66,7 @@ JudgeB(r) ==
       same == \A j \in 1..Len(r.ftoks) :
                 LET m == ParseProgram([DefaultP(MToks(r.ftoks[j])) EXCEPT !.cprefix = cfg.cprefix, !.cinfix = cfg.cinfix, !.cpostfix = cfg.cpostfix])
                 IN m.tree = r.ftrees[j] /\ Len(m.errs) = r.fnerr[j]
-  IN /\ (f1 \cup f2 = {} \/ PrintT(<<"FAIL", r.id, f1 \cup f2>>))
+  IN /\ (f1 \cup f2 \cup f3 = {} \/ PrintT(<<"FAIL", r.id, f1 \cup f2 \cup f3>>))
      /\ (same \/ PrintT(<<"DRIFT", r.id>>))
 
 Judge == LET r == Trace[t] IN IF r.part = "A" THEN JudgeA(r) ELSE JudgeB(r)
